@@ -14,4 +14,5 @@ const (
 	verifSend
 	verifRecv
 	verifSpawn
+	verifEnd
 )
